@@ -20,6 +20,8 @@ pub enum Kind {
     DirIndex,
     /// `<root>/a.{}.{}`
     Repeated,
+    /// `<root>/{}/a.{}` (index in a directory component and in the file name)
+    DirAndFile,
     /// `<root>/a$ENV{D}.{}` with D set to "x"
     EnvSet,
     /// `<root>/a$ENV{D}.{}` with D unset (reference stays literal)
@@ -31,12 +33,14 @@ fn archive_name(kind: Kind, idx: u32) -> &'static str {
     const F: [&str; 6] = ["a.0", "a.1", "a.2", "a.3", "a.4", "a.5"];
     const D: [&str; 6] = ["0/a", "1/a", "2/a", "3/a", "4/a", "5/a"];
     const R: [&str; 6] = ["a.0.0", "a.1.1", "a.2.2", "a.3.3", "a.4.4", "a.5.5"];
+    const DF: [&str; 6] = ["0/a.0", "1/a.1", "2/a.2", "3/a.3", "4/a.4", "5/a.5"];
     const ES: [&str; 6] = ["ax.0", "ax.1", "ax.2", "ax.3", "ax.4", "ax.5"];
     const EU: [&str; 6] = ["a$ENV{D}.0", "a$ENV{D}.1", "a$ENV{D}.2", "a$ENV{D}.3", "a$ENV{D}.4", "a$ENV{D}.5"];
     match kind {
         Kind::FileIndex => F[idx as usize],
         Kind::DirIndex => D[idx as usize],
         Kind::Repeated => R[idx as usize],
+        Kind::DirAndFile => DF[idx as usize],
         Kind::EnvSet => ES[idx as usize],
         Kind::EnvUnset => EU[idx as usize],
     }
@@ -50,6 +54,7 @@ fn pattern_tail(kind: Kind) -> &'static str {
         Kind::FileIndex => "/a.{}",
         Kind::DirIndex => "/{}/a",
         Kind::Repeated => "/a.{}.{}",
+        Kind::DirAndFile => "/{}/a.{}",
         Kind::EnvSet | Kind::EnvUnset => "/a$ENV{D}.{}",
     }
 }
@@ -70,7 +75,7 @@ pub fn body(kind: Kind, base: u32, count: u32, nrolls: usize, cross_device: bool
     let mut slot = [0usize; MAXW];
     for j in 0..nwin {
         let idx = base + j as u32;
-        let dir = if kind == Kind::DirIndex {
+        let dir = if kind == Kind::DirIndex || kind == Kind::DirAndFile {
             // archive directories may or may not exist beforehand
             fs::add_dir(dir_name(idx), false)
         } else {
@@ -79,7 +84,7 @@ pub fn body(kind: Kind, base: u32, count: u32, nrolls: usize, cross_device: bool
         slot[j] = fs::add_name(archive_name(kind, idx), dir);
     }
     let below = if base > 0 {
-        let dir = if kind == Kind::DirIndex { fs::add_dir(dir_name(base - 1), false) } else { 0 };
+        let dir = if kind == Kind::DirIndex || kind == Kind::DirAndFile { fs::add_dir(dir_name(base - 1), false) } else { 0 };
         Some(fs::add_name(archive_name(kind, base - 1), dir))
     } else {
         None
@@ -90,7 +95,7 @@ pub fn body(kind: Kind, base: u32, count: u32, nrolls: usize, cross_device: bool
     for j in 0..nwin {
         if sym::any_bool() {
             let id = 10 + j as u8;
-            if kind == Kind::DirIndex {
+            if kind == Kind::DirIndex || kind == Kind::DirAndFile {
                 #[cfg(kani)]
                 unsafe {
                     fs::DISK.dir_exists[fs::DISK.dir_of[slot[j]]] = true;
@@ -106,7 +111,7 @@ pub fn body(kind: Kind, base: u32, count: u32, nrolls: usize, cross_device: bool
     }
     let below_exists = below.is_some() && sym::any_bool();
     if below_exists {
-        if kind == Kind::DirIndex {
+        if kind == Kind::DirIndex || kind == Kind::DirAndFile {
             #[cfg(kani)]
             unsafe {
                 fs::DISK.dir_exists[fs::DISK.dir_of[below.unwrap()]] = true;
@@ -282,6 +287,10 @@ harnesses! {
     fn c07_file_b0_c2_xdev() { body(Kind::FileIndex, 0, 2, 1, true, false) }
     #[kani::unwind(8)]
     fn c07_dir_b0_c2() { body(Kind::DirIndex, 0, 2, 1, false, false) }
+    #[kani::unwind(10)]
+    fn c07_dirfile_b0_c2() { body(Kind::DirAndFile, 0, 2, 1, false, false) }
+    #[kani::unwind(10)]
+    fn c07_dirfile_b1_c3() { body(Kind::DirAndFile, 1, 3, 1, false, false) }
     #[kani::unwind(8)]
     fn c07_dir_b1_c3() { body(Kind::DirIndex, 1, 3, 1, false, false) }
     #[kani::unwind(10)]
